@@ -1123,8 +1123,6 @@ Definition Delivers (s : scanner) (cs : list N) : Prop :=
   | x :: r => chr s = Some x /\ r = phase2 (file s) /\ (x = 92 -> forall f, file s <> 10 :: f)
   end.
 
-Definition blank (cs : list N) : list achar := map (fun c => (c, (0, 0)%Z)) cs.
-
 Lemma map_fst_blank : forall cs, map fst (blank cs) = cs.
 Proof. induction cs; simpl; [reflexivity|]. now rewrite IHcs. Qed.
 
